@@ -51,6 +51,10 @@ Definition verdict (c : case) : Z * Z := verdict_with chan_check c.
 Definition TS (auto : bool) (delay veto : Z) (lev rising : bool) (level : Z)
               (edge er ef : bool) (elevel : Z) (em : bool) : tstate :=
   mkts auto delay veto lev rising level edge er ef elevel em.
+(* settings that also switch edge-multi on, with the two EMTState parameters its validity check reads *)
+Definition TSm (auto : bool) (delay veto : Z) (lev rising : bool) (level : Z)
+               (edge er ef : bool) (elevel : Z) (em : bool) (nmono : Z) (zero : bool) : tstate :=
+  mkts_full auto delay veto lev rising level edge er ef elevel em nmono zero.
 Definition mkrec (frame time pre : Z) (data : list Z) (signed : bool) : record :=
   {| r_frame := frame; r_time := time; r_pre := pre; r_data := data; r_signed := signed |}.
 (* a block: samples, first frame, time (ns), period (ns), signed;  then records, retained length, first frame *)
